@@ -207,13 +207,17 @@ func indent(s, p string) string {
 type Baseline struct {
 	Obligations map[string][]string `json:"obligations"` // function -> obligation names that discharge on the pinned tree
 	Canaries    map[string][]string `json:"canaries"`
+	Universal   map[string][]string `json:"universal"` // function -> stems of clauses that apply to every call site ("atcall f@*"): new sites are covered
 }
 
 func loadBaseline() *Baseline {
-	b := &Baseline{Obligations: map[string][]string{}, Canaries: map[string][]string{}}
+	b := &Baseline{Obligations: map[string][]string{}, Canaries: map[string][]string{}, Universal: map[string][]string{}}
 	data, err := os.ReadFile(filepath.Join(verifRoot, "baseline", "obligations.json"))
 	if err == nil {
 		json.Unmarshal(data, b)
+	}
+	if b.Universal == nil {
+		b.Universal = map[string][]string{}
 	}
 	return b
 }
